@@ -82,7 +82,13 @@ func (v *globValidator) invalidRefChar(c rune, why string) {
 func (v *globValidator) init(pat string) {
 	v.errs = []InvalidGlobPattern{}
 	v.prec = false
-	v.scan.Init(strings.NewReader(pat))
+	src := pat
+	if strings.HasPrefix(src, "\uFEFF") {
+		// text/scanner silently skips byte order mark at the start of input. But it is an ordinary character in glob
+		// pattern. Give another ordinary character at the position to the scanner instead.
+		src = "\u2060" + src[len("\uFEFF"):]
+	}
+	v.scan.Init(strings.NewReader(src))
 	v.scan.Error = func(s *scanner.Scanner, m string) {
 		// This callback is called on reading the invalid character as lookahead. The character is not eaten yet unlike
 		// other errors
